@@ -283,7 +283,8 @@ func (a Float) M__floordiv__(other Object) (Object, error) {
 		return nil, err
 	}
 	if ok {
-		return Float(math.Floor(float64(a / b))), nil
+		q, _, err := floatDivMod(a, b)
+		return q, err
 	}
 	return NotImplemented, nil
 }
@@ -294,7 +295,8 @@ func (a Float) M__rfloordiv__(other Object) (Object, error) {
 		return nil, err
 	}
 	if ok {
-		return Float(math.Floor(float64(b / a))), nil
+		q, _, err := floatDivMod(b, a)
+		return q, err
 	}
 	return NotImplemented, nil
 }
@@ -304,13 +306,39 @@ func (a Float) M__ifloordiv__(other Object) (Object, error) {
 }
 
 // Does DivMod of two floating point numbers
+//
+// The remainder is exact and has the sign of b, and the quotient is
+// the integer nearest to (a-remainder)/b, as in CPython's float_divmod
 func floatDivMod(a, b Float) (Float, Float, error) {
 	if b == 0 {
 		return 0, 0, floatDivisionByZero
 	}
-	q := Float(math.Floor(float64(a / b)))
-	r := a - q*b
-	return q, Float(r), nil
+	vx, wx := float64(a), float64(b)
+	mod := math.Mod(vx, wx)
+	// Mod is exact so vx-mod is very close to a multiple of wx
+	div := (vx - mod) / wx
+	if mod != 0 {
+		// ensure the remainder has the same sign as the denominator
+		if (wx < 0) != (mod < 0) {
+			mod += wx
+			div -= 1.0
+		}
+	} else {
+		// the remainder is zero with the sign of the denominator
+		mod = math.Copysign(0, wx)
+	}
+	var floordiv float64
+	if div != 0 {
+		// snap quotient to nearest integral value
+		floordiv = math.Floor(div)
+		if div-floordiv > 0.5 {
+			floordiv += 1.0
+		}
+	} else {
+		// div is zero - get the same sign as the true quotient
+		floordiv = math.Copysign(0, vx/wx)
+	}
+	return Float(floordiv), Float(mod), nil
 }
 
 func (a Float) M__mod__(other Object) (Object, error) {
